@@ -251,7 +251,8 @@ class CoderState(object):
         the delayed replication factors are the same for all subsets.
         """
         minv, maxv = CoderState.minmax([values[idx] for values in self.decoded_values_all_subsets])
-        assert minv == maxv, 'Values from all subsets are NOT identical'
+        if minv != maxv:
+            raise PyBufrKitError('Values from all subsets are NOT identical')
 
     @staticmethod
     def minmax(values):
